@@ -19,6 +19,12 @@ CHECKS = {
  "C06": ("E1-shape", "bounded-exhaustive enumeration of INTEGER bound pairs x contexts executed on the real compiler vs. width reference",
          "All 1431 (lo,hi) pairs of the 53-point boundary set x marker x 11 contexts (assignment, component, OPTIONAL, CHOICE alternative, nested member, SEQUENCE OF / SET OF element, value, value of referenced type, DEFAULT, DEFAULT of referenced type) x literal in {lo,hi,mid}, plus serial and union pairs over a 9-point subset (75 k cases) are compiled; the emitted integer type token must contain the permitted hull, be fixed-width only for finite non-extensible constraints, and every emitted literal must equal the source value and fit its declared type.",
          "Type-token -> range table and literal evaluator are trusted (self-tested); widths for constraints outside the boundary set follow by monotonicity of the comparison chains (small-scope argument, not a proof).", "§4 C06"),
+ "C13": ("E2-token", "exhaustive single-boundary (and pairwise / all-at-once) separator substitution over tokenized base inputs, differential oracle on the real compiler",
+         "For 33 feature modules covering every production of the grammar and the 12 (thorough 60) smallest real-world modules, every X.680 token boundary x 13 separator forms (whitespace kinds, CRLF, none where separable, all three comment forms incl. nested and hostile contents) is compiled and compared (Ok/Err class, warning count, syn projection minus docs) with the single-space base; thorough adds all boundaries at once and all adjacent pairs (81 k inputs). Deviation-2 findings are reported only when no single boundary explains them.",
+         "The harness tokenizer (X.680 12) and the separability rule are trusted; production coverage is that of the base inputs. 16 boundary classes are known findings on the pinned tree (multi-word reserved sequences matched with one literal space, comments not skipped in headers / EXPORTS / OID values / object assignments).", "§4 C13"),
+ "C17": ("E2-token", "exhaustive single-token corruption of generated module sets executed on the real compiler, positional oracle",
+         "Module sets of 1..3 modules x 1..14 assignments (14 assignment forms, 3 header forms, LF/CRLF, with/without interleaved comments) x every unit x every token position x {delete, replace/insert a character that starts no token, replace/insert 8 real tokens}, as literal and as file path (153 k corrupted inputs thorough); every returned MatchingError is judged: offset in range and on a char boundary, line = 1 + preceding line breaks, not before the malformed unit, not after the impossible character, Display / contextualize / ReportData lines equal, path reported iff given.",
+         "Offsets of units and of the inserted character are computed by the harness while printing the input (no parsing of the compiler's output except the two rendered line numbers).", "§4 C17"),
  "C14": ("E1-shape", "bounded-exhaustive enumeration of ENUMERATED numbering patterns executed on the real compiler vs. X.680 §20 reference",
          "Every enumeration with <=5 root items and <=3 additions over {id, id(-1), id(0), id(1), id(2), id(5)} (2.4 M notations, thorough) is compiled by the real compiler and its discriminants, order, names, extension flags compared with a 40-line reference of X.680 §20.3-20.6; complete inside the bound, not sampled.",
          "Reference numbering function (self-tested on the X.680 examples) and the syn projection are trusted; numbers outside the 5-point alphabet and >8 items are not covered.", "§4 C14"),
